@@ -5,8 +5,10 @@ import (
 	"fmt"
 	"math/rand"
 	"os"
+	"runtime/debug"
 	"strconv"
 	"strings"
+	"syscall"
 	"testing"
 	"testing/synctest"
 
@@ -98,6 +100,9 @@ func TestWorker(t *testing.T) {
 // The index being executed is on disk before it starts, so that the driver can
 // attribute a process death.
 func runBatch(t *testing.T, prop string, scen Scenario, seed uint64, first, count int) {
+	// absurd allocations become an attributable process death instead of machine pressure
+	syscall.Setrlimit(syscall.RLIMIT_AS, &syscall.Rlimit{Cur: 4 << 30, Max: 4 << 30})
+	debug.SetGCPercent(50)
 	out := os.Getenv("VERIF_OUT")
 	sites := LoadSites(os.Getenv("VERIF_SITES"))
 	opt := map[string]string{}
